@@ -367,6 +367,33 @@ func execFl(o *Out, id, line string) {
 	} else if !commonPrefixOK(out, sout) {
 		o.Violate("C01", "bytes delivered before the error differ from compress/flate's", "prefix-std", line)
 	}
+	if serr == nil && len(in) <= 20000 {
+		// exact consumption and source shapes: the stream is in[:L]; whatever follows must stay unread
+		L := len(in) - sun
+		tr := []byte{0xde, 0xad, 0xbe, 0xef, 0x01}
+		for _, src := range []string{"byte", "byteeof", "bytes", "buffer", "bufio16", "bufio4096"} {
+			sr := mkSource(src, append(append([]byte{}, in[:L]...), tr...), -1, 0, nil, []int{2, 5})
+			zr, _ := dflate.NewReader(sr, nil)
+			got, e := io.ReadAll(zr)
+			rest, _ := io.ReadAll(sr)
+			if e != nil || !bytes.Equal(got, sout) {
+				o.Violate("C10", fmt.Sprintf("flate through source %s with a trailer: err=%v equal=%v", src, e, bytes.Equal(got, sout)), "source-shape", line)
+				break
+			}
+			if zr.InputOffset != int64(L) || (!strings.HasPrefix(src, "bufio") && !bytes.Equal(rest, tr)) {
+				o.Violate("C11", fmt.Sprintf("flate through source %s: stream of %d bytes, InputOffset=%d, %d bytes left unread (trailer %d)", src, L, zr.InputOffset, len(rest), len(tr)), "over-read", line)
+				break
+			}
+		}
+		for _, src := range append([]string{"byte", "byteeof"}, realKinds...) {
+			zr, _ := dflate.NewReader(mkSource(src, in[:L], -1, 0, nil, []int{1, 3}), nil)
+			got, e := io.ReadAll(zr)
+			if e != nil || !bytes.Equal(got, sout) {
+				o.Violate("C10", fmt.Sprintf("flate through source %s with nothing after the stream: err=%v equal=%v", src, e, bytes.Equal(got, sout)), "source-shape-at-end", line)
+				break
+			}
+		}
+	}
 	zout, zerr := zlibInflateAll(in)
 	if (zerr == nil) != (err == nil) {
 		o.Violate("C01", fmt.Sprintf("dsnet flate.Reader ends with %v, zlib with %v", err, zerr), "verdict-zlib", line)
